@@ -92,6 +92,9 @@ func genWorld(r *vlib.Rand) *World {
 	for i := r.Intn(3); i > 0; i-- {
 		w.ConfigMaps = append(w.ConfigMaps, [2]string{vlib.Pick(r, nsPool), vlib.Pick(r, namePool)})
 	}
+	if r.Chance(12) {
+		w.MeshPkp = 1 + r.Intn(2)
+	}
 	for _, c := range w.Clusters {
 		for _, ns := range nsPool {
 			for _, sa := range saPool {
@@ -112,10 +115,14 @@ func genProxy(r *vlib.Rand, w *World, hashes [3]string, names []string) *Proxy {
 	if !r.Chance(12) {
 		p.Verified = &Ident{Td: "cluster.local", Ns: vlib.Pick(r, nsPool), Sa: vlib.Pick(r, saPool)}
 	}
-	if r.Chance(25) {
-		p.Pkp = 1 + r.Intn(2)
+	// Metadata.ProxyConfig: usually sent without a provider, sometimes with one, sometimes not sent at all
+	switch x := r.Intn(100); {
+	case x < 60:
+		p.Cfg = intp(0)
+	case x < 82:
+		p.Cfg = intp(1 + r.Intn(2))
 	}
-	p.PkpHash = hashes[p.Pkp]
+	p.PkpHash = hashOf(hashes, p.Cfg)
 	if r.Chance(60) {
 		refs := []string{}
 		for _, n := range names {
@@ -129,6 +136,23 @@ func genProxy(r *vlib.Rand, w *World, hashes [3]string, names []string) *Proxy {
 		p.Refs = &refs
 	}
 	return p
+}
+
+func intp(k int) *int { return &k }
+
+func hashOf(hashes [3]string, cfg *int) string {
+	if cfg == nil {
+		return hashes[0]
+	}
+	return hashes[*cfg]
+}
+
+// effFmt is the provider toEnvoyTLSSecret will use for the proxy (own ProxyConfig, else the mesh default).
+func effFmt(w *World, p *Proxy) int {
+	if p.Cfg != nil {
+		return *p.Cfg
+	}
+	return w.MeshPkp
 }
 
 func genCKey(r *vlib.Rand) CKey {
@@ -288,7 +312,7 @@ func TestGen(t *testing.T) {
 			idsT = "(Some " + strList(ids) + ")"
 		}
 		c.Add(vlib.Case{ID: id, Term: vlib.App("Ident", vlib.NI(id), vlib.B(enable), S(mns), S(dns), S(csa), idsT, obs), Tags: tags,
-			Sample: map[string]any{"kind": "ident", "enable": enable, "meta_ns": mns, "dns_domain": dns, "config_ns": p.ConfigNamespace, "csa": csa, "ids": ids, "nil": idsNil, "observed": obs},
+			Sample:  map[string]any{"kind": "ident", "enable": enable, "meta_ns": mns, "dns_domain": dns, "config_ns": p.ConfigNamespace, "csa": csa, "ids": ids, "nil": idsNil, "observed": obs},
 			Trivial: idsNil || parsable == 0})
 	}
 	features.EnableXDSIdentityCheck = saved
@@ -324,14 +348,14 @@ func TestGen(t *testing.T) {
 
 	// private-key-provider hashes as the real code computes them
 	probeGen, _, _ := newSecretGen(&World{Clusters: []string{"c1"}, ConfigCluster: "c1"})
-	hashes := [3]string{pkpHash(probeGen, 0), pkpHash(probeGen, 1), pkpHash(probeGen, 2)}
-	if hashes[0] != "" || hashes[1] == "" || hashes[1] == hashes[2] {
+	hashes := [3]string{pkpHash(probeGen, intp(0)), pkpHash(probeGen, intp(1)), pkpHash(probeGen, intp(2))}
+	if hashes[0] != "" || pkpHash(probeGen, nil) != "" || hashes[1] == "" || hashes[1] == hashes[2] || strings.Contains(hashes[1]+hashes[2], "/") {
 		t.Fatalf("unexpected private key provider hashes %q", hashes)
 	}
 
 	// ---- filter
 	rF := root.Sub()
-	for i := 0; i < vlib.Scale(500, 9000); i++ {
+	for i := 0; i < vlib.Scale(300, 9000); i++ {
 		id++
 		r := rF.Sub()
 		if !c.Wanted(id) {
@@ -363,7 +387,9 @@ func TestGen(t *testing.T) {
 		if ctl.authCalls > 1 {
 			c.Violate(vlib.Violation{ID: id, Kind: "oracle", Detail: fmt.Sprintf("Authorize called %d times for one filter pass", ctl.authCalls)})
 		}
-		st := func(x xds.VerifC11Parsed) string { return sresTerm(x.ResourceType, x.Name, x.Namespace, x.ResourceName, x.Cluster) }
+		st := func(x xds.VerifC11Parsed) string {
+			return sresTerm(x.ResourceType, x.Name, x.Namespace, x.ResourceName, x.Cluster)
+		}
 		term := vlib.App("Filter", vlib.NI(id), w.term(), p.term(), strList(names),
 			vlib.ListOf(parsed, func(x xds.VerifC11Parsed) string { return vlib.Pair(st(x), S(x.CacheKey)) }),
 			vlib.ListOf(passed, st))
@@ -380,8 +406,140 @@ func TestGen(t *testing.T) {
 	}
 
 	// ---- scenarios on a shared cache
+	// execScen runs one history against a SecretGen with the real XdsCache and records the case
+	execScen := func(id int, w *World, ops []Op, extraTags ...string) {
+		gen, cache, _ := newSecretGen(w)
+		var observed, fresh [][]Entry
+		var keysets [][]string
+		var failure string
+		if pan, msg := vlib.Recover(func() {
+			for _, o := range ops {
+				switch o.Kind {
+				case 0:
+					es, err := runGenerate(gen, o)
+					if err != nil {
+						failure = err.Error()
+						return
+					}
+					observed = append(observed, es)
+					g2, _, _ := newSecretGen(w)
+					fs, err := runGenerate(g2, o)
+					if err != nil {
+						failure = err.Error()
+						return
+					}
+					fresh = append(fresh, fs)
+				case 1:
+					cache.ClearAll()
+				case 2:
+					ks := sets.New[model.ConfigKey]()
+					for _, k := range o.Keys {
+						ks.Insert(k.real())
+					}
+					cache.Clear(ks)
+				}
+				ks := []string{}
+				for _, k := range cache.Keys(model.SDSType) {
+					ks = append(ks, k.(string))
+				}
+				sort.Strings(ks)
+				keysets = append(keysets, ks)
+			}
+		}); pan {
+			c.Violate(vlib.Violation{ID: id, Kind: "panic", Detail: msg, Case: map[string]any{"world": w, "ops": ops}})
+			return
+		}
+		if failure != "" {
+			c.Violate(vlib.Violation{ID: id, Kind: "oracle", Detail: "Generate/decoding failed: " + failure, Case: map[string]any{"world": w, "ops": ops}})
+			return
+		}
+		opTerms := make([]string, len(ops))
+		for j, o := range ops {
+			opTerms[j] = o.term()
+		}
+		term := vlib.App("Scen", vlib.NI(id), w.term(), vlib.List(opTerms), vlib.ListOf(observed, entriesTerm), vlib.ListOf(fresh, entriesTerm), vlib.ListOf(keysets, strList))
+		tags := append([]string{"scen", fmt.Sprintf("scen-ops=%d", len(ops))}, extraTags...)
+		// known finding C11-pkp-format-follows-first-requester: two requesters whose cache keys carry the same
+		// provider hash but who are served different key encodings (mesh-default provider; one sends no
+		// ProxyConfig, the other a ProxyConfig without provider)
+		fmtByHash := map[string]int{}
+		for _, o := range ops {
+			if o.Kind != 0 || o.P.Verified == nil {
+				continue
+			}
+			f := effFmt(w, o.P)
+			if g, ok := fmtByHash[o.P.PkpHash]; ok && g != f {
+				c.FindingOf[id] = "C11-pkp-format-follows-first-requester"
+				tags = append(tags, "scen=same-hash-different-format")
+			}
+			fmtByHash[o.P.PkpHash] = f
+		}
+		anyKey, denied := false, false
+		got := map[string]bool{}
+		gi := 0
+		for _, o := range ops {
+			switch o.Kind {
+			case 1:
+				tags = append(tags, "op=clearall")
+				continue
+			case 2:
+				tags = append(tags, "op=clear")
+				continue
+			}
+			es := observed[gi]
+			gi++
+			tags = append(tags, fmt.Sprintf("req=%d", o.R.Kind))
+			if o.P.Verified == nil {
+				tags = append(tags, "proxy=unauthenticated")
+			}
+			have := map[string]bool{}
+			for _, e := range es {
+				have[e.Name] = true
+				if e.TLS {
+					anyKey = true
+					got[e.Name] = true
+					tags = append(tags, "item=key")
+				} else {
+					tags = append(tags, "item=ca")
+				}
+			}
+			for _, n := range o.Names {
+				if !have[n] && got[n] {
+					denied = true
+				}
+			}
+		}
+		if denied {
+			tags = append(tags, "scen=denied-after-other-received")
+		}
+		c.Add(vlib.Case{ID: id, Term: term, Tags: tags,
+			Sample:  scenSample{World: w, Ops: opTerms, Observed: observed, Fresh: fresh, Keys: keysets},
+			Trivial: !(anyKey && denied)})
+	}
+
+	// witnesses of the known finding, both orders and both providers (minimal reproducer first)
+	for i := 0; i < 4; i++ {
+		id++
+		if !c.Wanted(id) {
+			continue
+		}
+		w := &World{Clusters: []string{"c1"}, ConfigCluster: "c1", Secrets: []Secret{{"c1", "a", "tls", true, false}},
+			Authz: []Authz{{"c1", "a", "gw"}}, MeshPkp: 1 + i/2}
+		noCfg := &Proxy{Verified: &Ident{"cluster.local", "a", "gw"}, Cluster: "c1", PkpHash: hashes[0]}
+		plain := &Proxy{Verified: &Ident{"cluster.local", "a", "gw"}, Cluster: "c1", PkpHash: hashes[0], Cfg: intp(0)}
+		order := []*Proxy{noCfg, plain}
+		if i%2 == 1 {
+			order = []*Proxy{plain, noCfg}
+		}
+		ops := []Op{}
+		for _, p := range order {
+			ops = append(ops, Op{Kind: 0, P: p, Names: []string{"kubernetes://tls"}, R: Req{Kind: 1, Stores: true}})
+		}
+		execScen(id, w, ops, "scen=finding-witness")
+	}
+
 	rS := root.Sub()
-	for i := 0; i < vlib.Scale(700, 12000); i++ {
+	for i := 0; i < vlib.Scale(520, 12000); i++ {
 		id++
 		r := rS.Sub()
 		if !c.Wanted(id) {
@@ -411,7 +569,10 @@ func TestGen(t *testing.T) {
 		// authentication, cluster), then random ones
 		if len(w.Secrets) > 0 {
 			s := vlib.Pick(r, w.Secrets)
-			a := &Proxy{Verified: &Ident{"cluster.local", s.Ns, vlib.Pick(r, saPool)}, Cluster: s.Cluster, PkpHash: hashes[0]}
+			a := &Proxy{Verified: &Ident{"cluster.local", s.Ns, vlib.Pick(r, saPool)}, Cluster: s.Cluster, PkpHash: hashes[0], Cfg: intp(0)}
+			if r.Chance(15) {
+				a.Cfg = nil
+			}
 			if r.Chance(85) {
 				w.Authz = append(w.Authz, Authz{s.Cluster, s.Ns, a.Verified.Sa})
 			}
@@ -474,98 +635,7 @@ func TestGen(t *testing.T) {
 				ops = append(ops, o)
 			}
 		}
-		gen, cache, _ := newSecretGen(w)
-		var observed, fresh [][]Entry
-		var keysets [][]string
-		var failure string
-		if pan, msg := vlib.Recover(func() {
-			for _, o := range ops {
-				switch o.Kind {
-				case 0:
-					es, err := runGenerate(gen, o)
-					if err != nil {
-						failure = err.Error()
-						return
-					}
-					observed = append(observed, es)
-					g2, _, _ := newSecretGen(w)
-					fs, err := runGenerate(g2, o)
-					if err != nil {
-						failure = err.Error()
-						return
-					}
-					fresh = append(fresh, fs)
-				case 1:
-					cache.ClearAll()
-				case 2:
-					ks := sets.New[model.ConfigKey]()
-					for _, k := range o.Keys {
-						ks.Insert(k.real())
-					}
-					cache.Clear(ks)
-				}
-				ks := []string{}
-				for _, k := range cache.Keys(model.SDSType) {
-					ks = append(ks, k.(string))
-				}
-				sort.Strings(ks)
-				keysets = append(keysets, ks)
-			}
-		}); pan {
-			c.Violate(vlib.Violation{ID: id, Kind: "panic", Detail: msg, Case: map[string]any{"world": w, "ops": ops}})
-			continue
-		}
-		if failure != "" {
-			c.Violate(vlib.Violation{ID: id, Kind: "oracle", Detail: "Generate/decoding failed: " + failure, Case: map[string]any{"world": w, "ops": ops}})
-			continue
-		}
-		opTerms := make([]string, len(ops))
-		for j, o := range ops {
-			opTerms[j] = o.term()
-		}
-		term := vlib.App("Scen", vlib.NI(id), w.term(), vlib.List(opTerms), vlib.ListOf(observed, entriesTerm), vlib.ListOf(fresh, entriesTerm), vlib.ListOf(keysets, strList))
-		tags := []string{"scen", fmt.Sprintf("scen-ops=%d", len(ops))}
-		anyKey, denied := false, false
-		got := map[string]bool{}
-		gi := 0
-		for _, o := range ops {
-			switch o.Kind {
-			case 1:
-				tags = append(tags, "op=clearall")
-				continue
-			case 2:
-				tags = append(tags, "op=clear")
-				continue
-			}
-			es := observed[gi]
-			gi++
-			tags = append(tags, fmt.Sprintf("req=%d", o.R.Kind))
-			if o.P.Verified == nil {
-				tags = append(tags, "proxy=unauthenticated")
-			}
-			have := map[string]bool{}
-			for _, e := range es {
-				have[e.Name] = true
-				if e.TLS {
-					anyKey = true
-					got[e.Name] = true
-					tags = append(tags, "item=key")
-				} else {
-					tags = append(tags, "item=ca")
-				}
-			}
-			for _, n := range o.Names {
-				if !have[n] && got[n] {
-					denied = true
-				}
-			}
-		}
-		if denied {
-			tags = append(tags, "scen=denied-after-other-received")
-		}
-		c.Add(vlib.Case{ID: id, Term: term, Tags: tags,
-			Sample:  scenSample{World: w, Ops: opTerms, Observed: observed, Fresh: fresh, Keys: keysets},
-			Trivial: !(anyKey && denied)})
+		execScen(id, w, ops)
 	}
 
 	// ---- the real kube CredentialsController.Authorize against a fake SubjectAccessReview backend
